@@ -3,4 +3,4 @@
    Constant / Extract Inductive directives of our own. *)
 From Coq Require Extraction ExtrOcamlBasic.
 From SV Require Import extract.AllEntries.
-Extraction "model.ml" run.
+Extraction "model.ml" sv_run_entry.
